@@ -116,6 +116,7 @@ func scenC11(r *Run, job *Job) {
 			}
 		}
 	}
+	var mid []latch
 	checkWaiters := func(prev []latch, what string) {
 		if r.HeldNow() {
 			return // a deliberately delayed waiter has not re-checked yet
@@ -133,7 +134,11 @@ func scenC11(r *Run, job *Job) {
 			}
 			// returned in this step: its verdict must match the model before or after this operation
 			ok := false
-			for _, st := range []latch{prev[w.gate], *m} {
+			cands := []latch{prev[w.gate], *m}
+			if mid != nil {
+				cands = append(cands, mid[w.gate]) // a flow operation made of two gate operations: the state in between
+			}
+			for _, st := range cands {
 				if w.ret == nil && st.arrived == st.count && !st.cancelled {
 					ok = true
 				}
@@ -152,6 +157,7 @@ func scenC11(r *Run, job *Job) {
 		}
 	}
 	for i := 0; i < depth; i++ {
+		mid = nil
 		prev := make([]latch, len(models))
 		for k, m := range models {
 			prev[k] = *m
@@ -287,6 +293,11 @@ func scenC11(r *Run, job *Job) {
 					x.cancelled, x.arrived, x.err = false, 0, nil
 				}
 				if profile == "initflow" {
+					// the init flow clears its agents-ready gate and then re-arms its count: two gate operations
+					mid = make([]latch, len(models))
+					for k, x := range models {
+						mid[k] = *x
+					}
 					models[2].count = 65535 // agents of the next initialisation may report before the count is known
 				}
 				run(func() error {
